@@ -84,6 +84,10 @@ func (h *vfHandler) ServeHTTP(w http.ResponseWriter, r *http.Request) {
 	}
 	// respond
 	w.Header().Set("X-Attempt", verifName("a", id))
+	// a header only this attempt sets (a failing backend's Retry-After, ...), and one every
+	// attempt adds a value to
+	w.Header().Set(verifName("X-Only-", id), "1")
+	w.Header().Add("X-Trace", verifName("t", id))
 	if h.fixedResponse {
 		// request-side variant: the response is not the subject
 		a.code, a.explicit, a.wrote = 200, true, "ok"
@@ -166,6 +170,12 @@ func VerifBufferServe() {
 	} else {
 		verifAssume(verifAnd(b.maxRequestBodyBytes == -1, b.memRequestBodyBytes == 1))
 	}
+	if mode == 0 {
+		// the debugging option dumps the request before anything else happens; it must be
+		// an observer only (the JSON encoder itself is reflection code: stubbed under the engine)
+		b.verbose = verifBool("verbose")
+		verifStub("encoding/json.Marshal", func(v any) ([]byte, error) { return []byte("{}"), nil })
+	}
 	h.respLimit = b.maxResponseBodyBytes
 	// work partition
 	part := verifParam("part")
@@ -184,7 +194,7 @@ func VerifBufferServe() {
 	}
 	body := &vfBody{data: vfPayload[:L], chunk: chunk}
 	chunked := verifBool("chunked")
-	req := &http.Request{Method: "POST", URL: &url.URL{Scheme: "http", Host: "h", Path: "/p", RawQuery: "q=1"}, Header: http.Header{"X-Orig": {"v"}}, Body: body, ContentLength: int64(L)}
+	req := &http.Request{Method: "POST", URL: &url.URL{Scheme: "http", Host: "h", Path: "/p", RawQuery: "q=1"}, Header: http.Header{"X-Orig": {"v"}, "Content-Type": {"application/x-www-form-urlencoded"}}, Body: body, ContentLength: int64(L)}
 	if chunked {
 		req.ContentLength = -1
 		req.TransferEncoding = []string{"chunked"}
@@ -214,7 +224,7 @@ func VerifBufferServe() {
 		verifAssert("attempt-method", a.method == method0)
 		verifAssert("attempt-url", verifAnd(verifAnd(a.url.Path == "/p", a.url.RawQuery == "q=1"), verifAnd(a.url.Host == "h", a.url.Scheme == "http")))
 		verifAssert("attempt-url-not-aliased", a.urlPtr != req.URL)
-		verifAssert("attempt-headers", verifAnd(a.hdrX == "v", a.hdrN == 1))
+		verifAssert("attempt-headers", verifAnd(a.hdrX == "v", a.hdrN == 2))
 		verifAssert("attempt-content-length", a.cl == int64(L))
 		verifAssert("attempt-no-transfer-encoding", a.te == 0)
 		if len(a.body) >= 7 && a.body[:7] == "prefix:" {
@@ -232,7 +242,7 @@ func VerifBufferServe() {
 		}
 	}
 	// the client's own request object is untouched
-	verifAssert("original-request-untouched", verifAnd(verifAnd(req.Method == method0, req.URL.Path == "/p"), verifAnd(req.Header.Get("X-Orig") == "v", len(req.Header) == 1)))
+	verifAssert("original-request-untouched", verifAnd(verifAnd(req.Method == method0, req.URL.Path == "/p"), verifAnd(req.Header.Get("X-Orig") == "v", len(req.Header) == 2)))
 	// ---- C07: exactly one response, the final attempt's
 	verifAssert("handler-invocations-bounded", len(h.attempts) <= retries+1)
 	if len(h.attempts) > 0 {
@@ -256,6 +266,13 @@ func VerifBufferServe() {
 			}
 			verifAssert("final-status", rec.code(0) == wantCode)
 			verifAssert("final-headers", rec.Header().Get("X-Attempt") == verifName("a", len(h.attempts)-1))
+			// ... and nothing a discarded attempt set: exactly the final attempt's header set
+			lastID := len(h.attempts) - 1
+			tr := rec.Header()["X-Trace"]
+			verifAssert("final-headers-only", verifAnd(verifAnd(len(tr) == 1, rec.Header().Get("X-Trace") == verifName("t", lastID)), rec.Header().Get(verifName("X-Only-", lastID)) == "1"))
+			for id := 0; id < lastID; id++ {
+				verifAssert("discarded-attempt-headers-dropped", rec.Header().Get(verifName("X-Only-", id)) == "")
+			}
 			wantBody := last.wrote
 			if method0 == "HEAD" || wantCode == 204 {
 				wantBody = ""
